@@ -41,10 +41,45 @@ theorem parked_after_response (rem : Cid → Bool) (l : Loader.State) (lt : LT) 
   unfold Loader.ingest Loader.setOnline
   simp [hmd, hopen, hrq, honest_items_rebuiltW, hq]
 
+theorem blocksOf_resultsOf (evs : List Ev) :
+    PauseResume.blocksOf evs = (resultsOf evs).filterMap (fun x => if x.2.2 then some (x.1, x.2.1) else none) := by
+  induction evs with
+  | nil => rfl
+  | cons e rest ih =>
+    cases e with
+    | err r =>
+      cases r with
+      | load le => cases le <;> simp [PauseResume.blocksOf, resultsOf] at ih ⊢ <;> exact ih
+      | status c => simp [PauseResume.blocksOf, resultsOf] at ih ⊢; exact ih
+      | other => simp [PauseResume.blocksOf, resultsOf] at ih ⊢; exact ih
+    | block c p l i => simp [PauseResume.blocksOf, resultsOf] at ih ⊢; exact ih
+    | _ => simp [PauseResume.blocksOf, resultsOf] at ih ⊢ <;> exact ih
+
+theorem missingOf_resultsOf (evs : List Ev) :
+    missingOf evs = (resultsOf evs).filterMap (fun x => if x.2.2 then none else some (x.1, x.2.1)) := by
+  induction evs with
+  | nil => rfl
+  | cons e rest ih =>
+    cases e with
+    | err r =>
+      cases r with
+      | load le => cases le <;> simp [missingOf, resultsOf] at ih ⊢ <;> exact ih
+      | status c => simp [missingOf, resultsOf] at ih ⊢; exact ih
+      | other => simp [missingOf, resultsOf] at ih ⊢; exact ih
+    | block c p l i => simp [missingOf, resultsOf] at ih ⊢; exact ih
+    | _ => simp [missingOf, resultsOf] at ih ⊢ <;> exact ih
+
+theorem delivered_count (ld : LT) :
+    (((ld.map (fun m => (m, true))).map keyOf).filterMap
+      (fun x => if x.2.2 then some (x.1, x.2.1) else none)).length = ld.length := by
+  induction ld with
+  | nil => rfl
+  | cons n rest ih => simp [keyOf]
+
 /-- **C06.reopen_reached** (reachability: the invariants (i)–(iii) at the re-opening, from the initial
     state).  Any messages `m1` during which block `k` is not loaded, a message `M` (no failure status)
     during which the block hook pauses the request at block `k`, every load up to the pause answered with
-    data (`hnm`, `hcur`), `Unpause`, and the resumed executor sends a request again (`hre`, with
+    data (`hnm`: no missing-block report), `Unpause`, and the resumed executor sends a request again (`hre`, with
     do-not-send-first-blocks `w`).  Then the exchange stands in a state `rP` that is parked in the
     retried load of the node `n` under the cursor (iii), right after going online: empty queue, fresh
     verifier over the traversal record, which is the record of the `K = |root :: pre'| ≥ k` links
@@ -61,14 +96,19 @@ theorem reopen_reached (loc : List (Cid × Blk)) (hloc : HonestStore loc)
     let pausedX := PauseResume.exchange loc lt u [k] (m1.map toOp ++ [toOp M])
     let parkedX := PauseResume.exchange loc lt u [k] (m1.map toOp ++ [toOp M, PauseResume.Op.unpause])
     pausedX.1.paused = true →
-    missingOf pausedX.2 = [] → pausedX.1.R.todo.length + k = lt.length →
+    missingOf pausedX.2 = [] →
     sentNews parkedX.2 = sentNews pausedX.2 ++ [w] →
     ∃ (rP : Requestor.State) (pre' : LT) (n : LNode) (rest : LT),
       parkedX.1 = hooked [k] rP ∧ lt = root :: pre' ++ n :: rest ∧ Parked rP (root :: pre') n rest ∧
       k ≤ pre'.length + 1 ∧ w = max u (pre'.length + 1) ∧
-      resultsOf parkedX.2 = ((root :: pre').map (fun m => (m, true))).map keyOf ∧ QE lt loc rP := by
-  intro lt pausedX parkedX hpaused hnm hcur hre
-  obtain ⟨r', e0, hX, hk, hP⟩ := pause_point loc lt u k m1 M hpre hctx hfail hpaused
+      resultsOf parkedX.2 = ((root :: pre').map (fun m => (m, true))).map keyOf ∧ QE lt loc rP ∧
+      ((∀ m ∈ m1 ++ [M], ∀ e ∈ m.md, e.2.didFollow = true) → rP.L.unfollowed = []) := by
+  intro lt pausedX parkedX hpaused hnm hre
+  obtain ⟨r', e0, hX, hk, hP, hcnt, hFr'⟩ := pause_point loc lt u k m1 M
+    (fun r => (∀ m ∈ m1 ++ [M], ∀ e ∈ m.md, e.2.didFollow = true) → Fol r.L) (Fol_pres _) (Fol_wake _)
+    (fun hm => ingestStatus_Fol _ (exchange_Fol loc lt u m1 (fun m h => hm m (List.mem_append_left _ h))) _ _ _
+      (hm M (by simp)))
+    hpre hctx hfail hpaused
   have hX' : pausedX = ((stopForPause (hooked [k] r')).1, e0 ++ [Ev.sentCancel]) := hX
   -- the delivered prefix at the pause
   have hsteps : Steps lt pausedX.2 pausedX.1.R.todo := pause_resume_walk loc hloc lt u [k] _ hwk
@@ -78,9 +118,13 @@ theorem reopen_reached (loc : List (Cid × Blk)) (hloc : HonestStore loc)
   have hll : loaded = ld := hq.unique (by rw [← htodo']; exact hld1)
   subst hll
   have hlen : loaded.length = k := by
-    have := congrArg List.length hld1
-    simp only [List.length_append] at this
-    omega
+    have h1 : cnt pausedX.2 = k := by
+      rw [hX']
+      simp only [cnt_append, hcnt]
+      rfl
+    unfold cnt at h1
+    rw [blocksOf_resultsOf, hld2, delivered_count] at h1
+    exact h1
   -- the Unpause
   have hops1 : m1.map toOp ++ [toOp M, PauseResume.Op.unpause] = (m1.map toOp ++ [toOp M]) ++ [PauseResume.Op.unpause] := by simp
   have hpk : parkedX = ((PauseResume.unpause pausedX.1).1, pausedX.2 ++ (PauseResume.unpause pausedX.1).2) := by
@@ -124,7 +168,7 @@ theorem reopen_reached (loc : List (Cid × Blk)) (hloc : HonestStore loc)
       simp only [List.cons.injEq] at h4'
       obtain ⟨hroot, htl⟩ := h4'
       subst hroot
-      refine ⟨rP, pre', n, rest, by rw [hpk], ?_, h5, by omega, by rw [hw]; simp, ?_, hqe⟩
+      refine ⟨rP, pre', n, rest, by rw [hpk], ?_, h5, by omega, by rw [hw]; simp, ?_, hqe, ?_⟩
       · show root :: tl = _
         rw [htl]; simp
       · rw [hpk]
@@ -132,13 +176,17 @@ theorem reopen_reached (loc : List (Cid × Blk)) (hloc : HonestStore loc)
         have hs0 : resultsOf [Ev.sentNew (max u (loaded ++ extra).length)] = [] := rfl
         rw [hs0, List.append_nil, ← hle]
         simp
+      · intro hm
+        have hf := unpause_Fol k r' hP.1.2.2 hk (hFr' hm)
+        rw [← hX1, h1] at hf
+        exact hf.unf
 
 /-- **C06.requestor_reopen_online** (case (c) end to end, from the initial state).
     Link tree `root :: tl` (well formed, paths in depth-first order), any local store, any user skip
     value `u`, hook pause at block `k`.  Any messages `m1` during which block `k` is not loaded, then
     a message `M` (any content, no failure status) during which the block hook pauses the request at
     block `k` (`hpaused`); every load up to the pause was answered with data (`hnm`: no
-    missing-block report; `hcur`: the cursor has passed exactly `k` links).  The request is resumed
+    missing-block report).  The request is resumed
     (`Unpause`) and the resumed executor — after consuming what the cancelled response left in the
     queue and what the local store holds — misses locally and goes ONLINE AGAIN, re-sending the request
     with do-not-send-first-blocks `w` (`hre`: that is the one request message sent after the pause;
@@ -151,7 +199,7 @@ theorem reopen_reached (loc : List (Cid × Blk)) (hloc : HonestStore loc)
     reported by the whole exchange — before the pause, after the resume, after the re-opening — are
     exactly the reference traversal `refTrav` of the link tree over the responder's store and the
     requestor's store at the re-opening, and the final store holds exactly what `refTrav` says.
-    Restriction (stated in `hnm` / `hcur` and implied for the loads after `Unpause`): every load
+    Restriction (stated in `hnm` and implied for the loads after `Unpause`): every load
     before the re-opening was delivered; records with failed loads are not covered. -/
 theorem requestor_reopen_online (rem : Cid → Bool) (loc : List (Cid × Blk)) (hloc : HonestStore loc)
     (root : LNode) (tl : LT) (u k : Nat) (m1 : List Requestor.Msg) (M : Requestor.Msg) (w st : Nat)
@@ -169,7 +217,7 @@ theorem requestor_reopen_online (rem : Cid → Bool) (loc : List (Cid × Blk)) (
     let res := PauseResume.exchange loc lt u [k]
       (m1.map toOp ++ [toOp M, PauseResume.Op.unpause, toOp ⟨true, true, st, mdOf items, blocksOfItems items⟩])
     pausedX.1.paused = true →
-    missingOf pausedX.2 = [] → pausedX.1.R.todo.length + k = lt.length →
+    missingOf pausedX.2 = [] →
     sentNews parkedX.2 = sentNews pausedX.2 ++ [w] →
     parkedX.1.R.L.unfollowed = [] →
     rem root.cid = true →
@@ -177,9 +225,9 @@ theorem requestor_reopen_online (rem : Cid → Bool) (loc : List (Cid × Blk)) (
     resultsOf res.2 = (refTrav rem lt parkedX.1.R.L.store none).1.map keyOf ∧
     (∀ c, holds res.1.R.L.store c = holds (refTrav rem lt parkedX.1.R.L.store none).2 c) ∧
     res.1.paused = false := by
-  intro lt pausedX parkedX items res hpaused hnm hcur hre hunf hremroot hwin
-  obtain ⟨rP, pre', n, rest, hpk1, hlt', h5, hkK, hw, hresP, _⟩ :=
-    reopen_reached loc hloc root tl u k m1 M w hwk hpre hctx hfail hpaused hnm hcur hre
+  intro lt pausedX parkedX items res hpaused hnm hre hunf hremroot hwin
+  obtain ⟨rP, pre', n, rest, hpk1, hlt', h5, hkK, hw, hresP, _, _⟩ :=
+    reopen_reached loc hloc root tl u k m1 M w hwk hpre hctx hfail hpaused hnm hre
   have hpk1' : parkedX.1 = hooked [k] rP := hpk1
   have hlt'' : lt = root :: pre' ++ n :: rest := hlt'
   have htl : tl = pre' ++ n :: rest := by
@@ -272,34 +320,6 @@ theorem refTrav_full (rem : Cid → Bool) : ∀ (lt : LT) (st : List (Cid × Blk
       simp only [List.any_cons]
       cases (n.cid == c) <;> cases holds st c <;> simp
 
-theorem blocksOf_resultsOf (evs : List Ev) :
-    PauseResume.blocksOf evs = (resultsOf evs).filterMap (fun x => if x.2.2 then some (x.1, x.2.1) else none) := by
-  induction evs with
-  | nil => rfl
-  | cons e rest ih =>
-    cases e with
-    | err r =>
-      cases r with
-      | load le => cases le <;> simp [PauseResume.blocksOf, resultsOf] at ih ⊢ <;> exact ih
-      | status c => simp [PauseResume.blocksOf, resultsOf] at ih ⊢; exact ih
-      | other => simp [PauseResume.blocksOf, resultsOf] at ih ⊢; exact ih
-    | block c p l i => simp [PauseResume.blocksOf, resultsOf] at ih ⊢; exact ih
-    | _ => simp [PauseResume.blocksOf, resultsOf] at ih ⊢ <;> exact ih
-
-theorem missingOf_resultsOf (evs : List Ev) :
-    missingOf evs = (resultsOf evs).filterMap (fun x => if x.2.2 then none else some (x.1, x.2.1)) := by
-  induction evs with
-  | nil => rfl
-  | cons e rest ih =>
-    cases e with
-    | err r =>
-      cases r with
-      | load le => cases le <;> simp [missingOf, resultsOf] at ih ⊢ <;> exact ih
-      | status c => simp [missingOf, resultsOf] at ih ⊢; exact ih
-      | other => simp [missingOf, resultsOf] at ih ⊢; exact ih
-    | block c p l i => simp [missingOf, resultsOf] at ih ⊢; exact ih
-    | _ => simp [missingOf, resultsOf] at ih ⊢ <;> exact ih
-
 /-- **C06.requestor_pause_resume_online** — a requestor-side pause after the request went online,
     followed by a resume that goes online again, gives the result of the uninterrupted exchange.
 
@@ -314,13 +334,14 @@ theorem missingOf_resultsOf (evs : List Ev) :
     `res` — the PAUSED AND RESUMED exchange, hook pause at block `k`: any messages `m1` during which
     block `k` is not loaded, then a message `M` (any content, e.g. the first part of the honest
     response; no failure status) during which the hook pauses the request at block `k` — after the
-    request went online, `M` being a response message — with every load so far delivered (`hnm`, `hcur`);
+    request went online, `M` being a response message — with every load so far delivered (`hnm`);
     `Unpause`; the resumed executor consumes what is left in the queue / held locally, misses locally,
     goes online again discarding the unconsumed items of the cancelled response (/repo b4f998f) and
     re-sends the request with do-not-send-first-blocks `w` (`hre`); nothing of the cancelled response
     arrives any more (negation of the known finding `stale-response-after-resume`); the honest response
-    to the resumed request arrives as one message.  `hunf`: the path tracker holds no stale value at
-    that moment (a fact about the state; it holds whenever every entry of `m1`, `M` was "present").
+    to the resumed request arrives as one message.  `hfol`: every entry of `m1`, `M` is one the responder
+    followed ("present" / "duplicate not sent" — all an honest responder holding the DAG sends): the path
+    tracker then holds no stale value at the re-opening (invariant `Fol`).
 
     Then the paused and resumed exchange reports exactly the same answers in the same order — the same
     delivered blocks, the same (no) missing-block errors — and ends with the same stored blocks as the
@@ -337,7 +358,8 @@ theorem requestor_pause_resume_online (rem : Cid → Bool) (loc : List (Cid × B
     (hwk : ∀ m, PauseResume.Op.msg m ∈ m1.map toOp ++ [toOp M] → WellKeyed m.blocks)
     (hpre : (Requestor.exchange loc (root :: pre0' ++ n0 :: post0) 0 m1).1.nBlocks < k)
     (hctx : (Requestor.exchange loc (root :: pre0' ++ n0 :: post0) 0 m1).1.ctxCancelled = false)
-    (hfail : isFailure M.status = false) :
+    (hfail : isFailure M.status = false)
+    (hfol : ∀ m ∈ m1 ++ [M], ∀ e ∈ m.md, e.2.didFollow = true) :
     let lt := root :: pre0' ++ n0 :: post0
     let items0 := respItemsW rem lt [] (pre0'.length + 1)
     let base := Requestor.exchange loc lt 0 [⟨true, true, st1, mdOf items0, blocksOfItems items0⟩]
@@ -347,16 +369,15 @@ theorem requestor_pause_resume_online (rem : Cid → Bool) (loc : List (Cid × B
     let res := PauseResume.exchange loc lt 0 [k]
       (m1.map toOp ++ [toOp M, PauseResume.Op.unpause, toOp ⟨true, true, st2, mdOf items, blocksOfItems items⟩])
     pausedX.1.paused = true →
-    missingOf pausedX.2 = [] → pausedX.1.R.todo.length + k = lt.length →
+    missingOf pausedX.2 = [] →
     sentNews parkedX.2 = sentNews pausedX.2 ++ [w] →
-    parkedX.1.R.L.unfollowed = [] →
     resultsOf res.2 = resultsOf base.2 ∧
     PauseResume.blocksOf res.2 = PauseResume.blocksOf base.2 ∧ missingOf res.2 = missingOf base.2 ∧
     (∀ c, holds res.1.R.L.store c = holds base.1.L.store c) ∧
     res.1.paused = false ∧
     resultsOf res.2 = lt.map (fun m => (m.cid, m.path, true)) ∧
     (∀ c, holds res.1.R.L.store c = (holds loc c || lt.any (fun m => m.cid == c))) := by
-  intro lt items0 base pausedX parkedX items res hpaused hnm hcur hre hunf
+  intro lt items0 base pausedX parkedX items res hpaused hnm hre
   have hremroot : rem root.cid = true := hrem root (by simp)
   -- the uninterrupted exchange is the reference traversal over the initial store
   have hbase := GS.C02.exchange_complete_prefix rem loc root pre0' n0 post0 st1 hst1 hwf hroot0 hne
@@ -376,9 +397,10 @@ theorem requestor_pause_resume_online (rem : Cid → Bool) (loc : List (Cid × B
   have b1' : resultsOf base.2 = (refTrav rem lt loc none).1.map keyOf := b1
   have b3' : ∀ c, holds base.1.L.store c = holds (refTrav rem lt loc none).2 c := b3
   -- the state at the re-opening
-  obtain ⟨rP, pre', n, rest, hpk1, hlt', h5, hkK, hw, hresP, ldq, hqq⟩ :=
-    reopen_reached loc hloc root (pre0' ++ n0 :: post0) 0 k m1 M w hwk hpre hctx hfail hpaused hnm hcur hre
+  obtain ⟨rP, pre', n, rest, hpk1, hlt', h5, hkK, hw, hresP, ⟨ldq, hqq⟩, hunf0⟩ :=
+    reopen_reached loc hloc root (pre0' ++ n0 :: post0) 0 k m1 M w hwk hpre hctx hfail hpaused hnm hre
   have hpk1' : parkedX.1 = hooked [k] rP := hpk1
+  have hunf : parkedX.1.R.L.unfollowed = [] := by rw [hpk1']; exact hunf0 hfol
   have hlt'' : lt = root :: pre' ++ n :: rest := hlt'
   have hstore : parkedX.1.R.L.store = rP.L.store := by rw [hpk1']; rfl
   have hw' : w = (root :: pre').length := by rw [hw]; simp
@@ -394,7 +416,7 @@ theorem requestor_pause_resume_online (rem : Cid → Bool) (loc : List (Cid × B
         have : m ∈ lt := by rw [hlt'']; simp only [List.mem_cons, List.mem_append] at hm ⊢; rcases hm with h | h <;> simp [h]
         exact this)) h5.held it hit
   obtain ⟨a1, a2, a3⟩ := requestor_reopen_online rem loc hloc root (pre0' ++ n0 :: post0) 0 k m1 M w st2 hst2
-    hwf hroot0 hne hdep hdfs hwk hpre hctx hfail hpaused hnm hcur hre hunf hremroot hwin
+    hwf hroot0 hne hdep hdfs hwk hpre hctx hfail hpaused hnm hre hunf hremroot hwin
   have a1' : resultsOf res.2 = (refTrav rem lt parkedX.1.R.L.store none).1.map keyOf := a1
   have a2' : ∀ c, holds res.1.R.L.store c = holds (refTrav rem lt parkedX.1.R.L.store none).2 c := a2
   have fS := refTrav_full rem lt parkedX.1.R.L.store hrem
@@ -451,19 +473,46 @@ example :
     (∀ m ∈ lt, rem m.cid = true) ∧ Loader.WF lt ∧ PathsDFS (lt.map (·.path)) ∧
     holds loc 9 = true ∧ holds loc 2 = false ∧ HonestStore loc ∧
     (Requestor.exchange loc lt 0 []).1.nBlocks < 2 ∧ (Requestor.exchange loc lt 0 []).1.ctxCancelled = false ∧
-    isFailure M.status = false ∧
-    pausedX.1.paused = true ∧ missingOf pausedX.2 = [] ∧ pausedX.1.R.todo.length + 2 = lt.length ∧
+    isFailure M.status = false ∧ (∀ m ∈ ([] : List Requestor.Msg) ++ [M], ∀ e ∈ m.md, e.2.didFollow = true) ∧
+    pausedX.1.paused = true ∧ missingOf pausedX.2 = [] ∧
     sentNews parkedX.2 = sentNews pausedX.2 ++ [2] ∧ parkedX.1.R.L.unfollowed = [] ∧
     respItemsW rem lt [] 2 = items ∧ respItemsW rem lt [] 1 = items0 ∧
     parkedX.2 = [.block 9 [] true 1, .prog 1, .sentNew 1, .write 2 2, .block 2 [0] false 2, .prog 1,
       .sentCancel, .sentNew 2] ∧
     resultsOf res.2 = [(9, [], true), (2, [0], true), (3, [1], true), (4, [2], true)] ∧
     resultsOf base.2 = [(9, [], true), (2, [0], true), (3, [1], true), (4, [2], true)] := by
-  refine ⟨by decide, ?_, by decide, by decide, by decide, ?_, by decide, by decide, by decide, by decide, by decide,
-    by decide, by decide, by decide, ?_, ?_, by decide, by decide, by decide⟩
+  refine ⟨by decide, ?_, by decide, by decide, by decide, ?_, by decide, by decide, by decide, by decide, by decide, by decide,
+    by decide, by decide, ?_, ?_, by decide, by decide, by decide⟩
   · simp [Loader.WF, subOf, skipSub, below]
   · intro c b h; simp at h; rw [h.1, h.2]
   · simp [respItemsW]
   · simp [respItemsW]
+
+/-- `requestor_pause_resume_online` APPLIED to the exchange of the example above: all its hypotheses are
+    discharged by evaluation, so the theorem is not vacuous (and `res` / `base` are the exchanges named
+    there). -/
+example :
+    let root : LNode := ⟨9, [], 0, 1, 0⟩
+    let n2 : LNode := ⟨2, [0], 1, 1, 0⟩
+    let n3 : LNode := ⟨3, [1], 1, 1, 0⟩
+    let n4 : LNode := ⟨4, [2], 1, 1, 0⟩
+    let lt : LT := root :: [] ++ n2 :: [n3, n4]
+    let rem : Cid → Bool := fun c => [9, 2, 3, 4].contains c
+    let loc : List (Cid × Blk) := [(9, 9)]
+    let M : Requestor.Msg := ⟨true, true, 14, [(9, .present), (2, .present)], [(2, 2)]⟩
+    let items := respItemsW rem lt [] 2
+    let items0 := respItemsW rem lt [] ([] : LT).length.succ
+    let res := PauseResume.exchange loc lt 0 [2]
+      (([] : List Requestor.Msg).map toOp ++ [toOp M, PauseResume.Op.unpause, toOp ⟨true, true, 20, mdOf items, blocksOfItems items⟩])
+    let base := Requestor.exchange loc lt 0 [⟨true, true, 20, mdOf items0, blocksOfItems items0⟩]
+    resultsOf res.2 = resultsOf base.2 ∧ (∀ c, holds res.1.R.L.store c = holds base.1.L.store c) := by
+  intro root n2 n3 n4 lt rem loc M items items0 res base
+  have h := requestor_pause_resume_online rem loc (by intro c b h; simp [loc] at h; rw [h.1, h.2])
+    root [] n2 [n3, n4] 2 [] M 2 20 20 (Or.inl rfl) (Or.inl rfl)
+    (by decide) (by simp [Loader.WF, subOf, skipSub, below, root, n2, n3, n4]) rfl (by decide) (by decide) (by decide)
+    (by decide) (by decide)
+    (by intro m hm; simp [toOp, M] at hm; subst hm; intro k b h; simp at h; rw [h.1, h.2])
+    (by decide) (by decide) (by decide) (by decide) (by decide) (by decide) (by decide)
+  exact ⟨h.1, h.2.2.2.1⟩
 
 end GS.C06
